@@ -16,7 +16,7 @@ COMMON_TRUSTED = [
 PROPS = {
     "C01": {
         "gen": ["Numeric"],
-        "thm_module": "NutsModel.Thm.C01Refine",
+        "thm_module": "NutsModel.Thm.C01Mirror",
         "namespace": "NutsModel.C01",
         "theorems": [
             "logaddexp_spec", "logaddexp_comm", "exp_logaddexp", "coin_half", "prob_total",
@@ -25,6 +25,7 @@ PROPS = {
             "back_wordOf", "wordOf_back", "kernel_balance",
             "merge_cont", "buildOther_spec", "extend_spec", "loop_spec", "S_balance", "K_eq_S",
             "nuts_detailed_balance",
+            "mirror_symmetry", "window_prob_value", "Kwin_eq", "windows_partition", "K_eq_sum_windows",
         ],
         "harness": "C01",
         "level": "proof",
@@ -39,18 +40,21 @@ PROPS = {
         "trusted": [
             "C01: proved (nuts_detailed_balance): for EVERY divergence-free orbit (energies E : Z -> R, symmetric U-turn verdicts), every maxdepth and all states s, i: exp(-E s) K(s,i) = exp(-E i) K(i,s), where K is the transition probability of the executable model Model/Tree.lean (default tree options) under the probability semantics coin = 1/2, random_bool(p) = p. Intermediate: translated logaddexp = log(e^a+e^b); merge_into accepts with min(1,W_o/W_s) (main) resp. W_o/(W_s+W_o) (sub-tree), p in [0,1]; sub-trees multinomial; refinement K = closed-form mixture over final windows (K_eq_S); mirrored direction words",
             "C01: the model is hand-written and tied to src/nuts.rs by bit-exact trace validation (every Hamiltonian call, merge, log_size, measured Bernoulli threshold, result) and by the implementation-level exact-kernel detailed-balance check; orbit re-indexing (the leapfrog orbit through z' is the orbit through z, shifted) is C02's reversibility",
-            "C01: the measure-theoretic lift from per-orbit detailed balance to invariance of pi on R^d x R^d (volume preservation + Fubini) is argued in DESIGN.md, not formalised; divergent trajectories excluded as in the property",
+            "C01: the mirror clause is proved as probabilities of (window, depth) events read off the model's log (Thm/C01Mirror), not as an event on the coin sequence (the log does not record coin values; the word-level bijection is back_wordOf / wordOf_back); the measure-theoretic lift from per-orbit detailed balance to invariance of pi on R^d x R^d is not formalised (its ingredients are: phase_space_detailed_balance in Thm/C04, volume preservation in Thm/C02Volume); divergent trajectories excluded as in the property",
             "C01: uniform RNG words => Bernoulli(p) true with probability floor(p 2^64)/2^64, coin 1/2 (rand 0.10 decoding rules are modelled in Model/Rand.lean and validated by the threshold measurements)",
         ],
     },
     "C02": {
         "gen": [],
-        "thm_module": "NutsModel.Thm.C02",
+        "thm_module": "NutsModel.Thm.C02Volume",
         "namespace": "NutsModel.C02",
         "theorems": ["vsum_eq_sum", "dot_eq_sum", "diag_bijection", "leapfrog_reversible", "leapfrog_gy_consistent",
                      "leapfrog_reversible_iterate", "leapfrog_is_textbook_diag", "lowrank_apply_inverse", "lowrank_bijection",
                      "gradient_pullback_diag", "gradient_pullback_lowrank", "exactnormal_conserves", "modified_energy_conserved",
-                     "leapfrog_shear_decomposition", "shearV_bijective", "shearQ_bijective", "logdet_diag"],
+                     "leapfrog_shear_decomposition", "shearV_bijective", "shearQ_bijective", "logdet_diag",
+                     "shearV_measurePreserving", "shearQ_measurePreserving", "leapfrog_volume_preserving", "leapfrogPair_eq_shears",
+                     "leapfrogPair_spec", "leapfrog_step_volume_preserving", "leapfrog_step_volume_preimage", "leapfrogPair_bijective",
+                     "leapfrog_iterate_volume_preserving"],
         "harness": "C02",
         "level": "proof",
         "rule": ("one real TransformedHamiltonian::leapfrog step (and the step back) per case: Diag and LowRank transformations with "
@@ -64,7 +68,7 @@ PROPS = {
                  "a matching Gaussian over 50 steps. distinct_nontrivial = low-rank cases with rank >= 1 and n >= 2."),
         "trusted": [
             "C02: proved over R for every dimension, step size of either sign and ARBITRARY gradient field: leapfrog(-eps) o leapfrog(eps) = id for Euclidean and ExactNormal (and along whole orbits); for the diagonal transformation the whitened step IS the textbook leapfrog for H = -logp + 1/2 p^T M^-1 p with M^-1 = diag(sigma^2); Diag and LowRank maps are bijections (orthonormal U, lambda > 0) whose gradient map is the adjoint of the linear part; logdet = -sum log sigma; ExactNormal conserves 1/2|v|^2+1/2|y|^2 on the standard normal; the Euclidean step conserves the shadow energy of a harmonic oscillator exactly (hence energy error O(eps^2) there); the step is a composition of three shears, each bijective with explicit inverse",
-            "C02: NOT proved: volume preservation as a statement about Jacobian determinants of the composed map for arbitrary differentiable densities (each shear has a unit-triangular Jacobian; the fderiv bookkeeping is not formalised); energy error O(eps^2) for arbitrary smooth densities (needs Taylor estimates) -- supported numerically only; the textbook identity for the LOW-RANK transformation is checked by the dense-matrix oracle on real steps, its Lean statement covers the diagonal case; Sylvester's determinant identity for the low-rank logdet is checked numerically (ln|det F| by LU)",
+            "C02: volume preservation IS proved, measure-theoretically (Thm/C02Volume: each shear, the Euclidean leapfrog step and its iterates preserve Lebesgue measure for any measurable whitened-gradient field; no smoothness needed); the ExactNormal flow's volume preservation (a rotation composed with shears) is not separately stated; NOT proved: energy error O(eps^2) for arbitrary smooth densities (needs Taylor estimates) -- supported numerically only; the textbook identity for the LOW-RANK transformation is checked by the dense-matrix oracle on real steps, its Lean statement covers the diagonal case; Sylvester's determinant identity for the low-rank logdet is checked numerically (ln|det F| by LU)",
         ],
     },
     "C03": {
